@@ -25,11 +25,11 @@ ENV_ASSUMPTIONS = [
 
 
 class PathResult:
-    __slots__ = ('kind', 'value', 'conds', 'world', 'log', 'msg', 'observed', 'tag', 'prefix', 'scenario', 'prog', 'extra')
+    __slots__ = ('kind', 'value', 'conds', 'world', 'log', 'msg', 'observed', 'tag', 'prefix', 'scenario', 'prog', 'extra', 'steps')
     def __init__(self, kind, value, conds, world, log, msg='', observed=None, prefix=None, scenario=None, prog=None):
         self.kind = kind; self.value = value; self.conds = conds; self.world = world; self.log = log; self.msg = msg
         self.observed = observed or {}; self.tag = ''; self.prefix = prefix; self.scenario = scenario; self.prog = prog
-        self.extra = {}
+        self.extra = {}; self.steps = []
     @property
     def ok(self): return self.kind == 'ret' and isinstance(self.value, Enum) and self.value.variant == 'Ok'
     @property
@@ -123,7 +123,7 @@ class Check:
             self.stubs |= set(it.stubs)
             pr = PathResult(kind, val, ctx.conds(), it.world, list(ctx.log), msg, dict(it.observed), list(ctx.prefix),
                             getattr(it, 'scenario', None), prog)
-            pr.tag = label; pr.extra = dict(getattr(it, 'extra', {}))
+            pr.tag = label; pr.extra = dict(getattr(it, 'extra', {})); pr.steps = [x for x in getattr(it, 'rsteps', []) if x.kind is not None]
             results.append(pr)
         self.paths_total += len(results); self.feas_queries += ctx.nqueries; self.solver_s += ctx.qtime
         self.unknown_feas += ctx.nunknown
@@ -142,24 +142,26 @@ class Check:
         from . import replay
         todo = []
         for p in paths:
-            if p.scenario is None or p.kind not in ('ret', 'panic'): continue
-            r, model, dt = self.solve(p.conds + list(p.scenario.get('nice', [])), 10000)
+            if not p.steps or p.kind not in ('ret', 'panic'): continue
+            nice = [c for st in p.steps for c in st.scenario.get('nice', [])]
+            r, model, dt = self.solve(p.conds + nice, 10000)
             if r != z3.sat:
                 r, model, dt = self.solve(p.conds, 10000)
             if r != z3.sat: continue
-            try:
-                sc, conc = replay.scenario(p.prog, p.scenario, model)
-            except Exception as e:
-                self.inconclusive.append('%s: cannot serialise scenario for replay: %r' % (label, e)); continue
-            todo.append((p, sc, conc))
+            for st in p.steps:
+                try:
+                    sc, conc = replay.scenario(p.prog, st.scenario, model)
+                except Exception as e:
+                    self.inconclusive.append('%s: cannot serialise scenario for replay: %r' % (label, e)); continue
+                todo.append((p, st, sc, conc))
         if not todo: return
-        outs = replay.run_scenarios([sc for _, sc, _ in todo])
-        for (p, sc, conc), real in zip(todo, outs):
-            mism = replay.compare(p.prog, p, conc, real)
+        outs = replay.run_scenarios([sc for _, _, sc, _ in todo])
+        for (p, st, sc, conc), real in zip(todo, outs):
+            mism = replay.compare(p.prog, st, conc, real)
             if mism:
                 os.makedirs(REPLAYS, exist_ok=True)
                 fn = os.path.join(REPLAYS, '%s-mismatch-%d.json' % (self.pid, len(self.inconclusive)))
-                json.dump(dict(scenario=sc, real=real, predicted=p.short(), mismatches=mism, decisions=p.log), open(fn, 'w'), indent=1)
+                json.dump(dict(scenario=sc, real=real, predicted=st.short(), mismatches=mism, decisions=p.log), open(fn, 'w'), indent=1)
                 self.inconclusive.append('%s: interpreter and real contract disagree on path %s (%s): %s' % (label, p.short(), fn, mism[0][:300]))
             else:
                 self.validated += 1
@@ -210,23 +212,25 @@ class Check:
         n = len(self.violations)
         fn = os.path.join(REPLAYS, '%s-%d.json' % (self.pid, n))
         confirmed = None; native = None
-        builder = path.scenario if path.scenario is not None else None
-        if builder is not None and not os.environ.get('VERIF_NO_REPLAY'):
+        if path.steps and not os.environ.get('VERIF_NO_REPLAY'):
             from . import replay
+            native = []; confirmed = True
             try:
-                sc, conc = replay.scenario(path.prog, path.scenario, model)
-                real = replay.run_scenarios([sc])[0]
-                mism = replay.compare(path.prog, path, conc, real)
-                native = dict(scenario=sc, real=real, mismatches=mism)
-                confirmed = not mism
+                scs = [replay.scenario(path.prog, st.scenario, model) for st in path.steps]
+                reals = replay.run_scenarios([sc for sc, _ in scs])
+                for st, (sc, conc), real in zip(path.steps, scs, reals):
+                    mism = replay.compare(path.prog, st, conc, real)
+                    native.append(dict(scenario=sc, real=real, mismatches=mism))
+                    if mism: confirmed = False
             except Exception as e:
-                native = dict(error=repr(e)); confirmed = False
+                native.append(dict(error=repr(e))); confirmed = False
             if not confirmed:
                 self.inconclusive.append('%s: solver counterexample did not reproduce natively (%s): %s'
-                                         % (oid, fn, str(native.get('mismatches') or native.get('error'))[:300]))
+                                         % (oid, fn, str([n.get('mismatches') or n.get('error') for n in native])[:400]))
                 rec['replay_confirmed'] = False
                 json.dump(dict(property=self.pid, obligation=oid, desc=desc, native=native), open(fn, 'w'), indent=1, default=str)
                 return
+            native = native[0] if len(native) == 1 else dict(steps=native)
         mdl = {}
         for d in model.decls():
             try: mdl[d.name()] = str(model[d])
@@ -347,14 +351,32 @@ def mk_info(sender, funds=()):
     return Agg('cosmwasm_std::MessageInfo', [sender if isinstance(sender, Agg) else ADDR(sender), VecV(list(funds))])
 
 
+class Step:
+    """one real entry-point call inside a (possibly multi-step) symbolic scenario, with the interpreter's prediction for it."""
+    __slots__ = ('scenario', 'kind', 'value', 'msg', 'world')
+    def __init__(self, scenario): self.scenario = scenario; self.kind = None; self.value = None; self.msg = ''; self.world = None
+    def short(self):
+        return PathResult.short(self)
+
+
 def enter(it, contract, entry, env, info, msg, nice=()):
-    """run a real contract entry point (`<contract>::contract::<entry>`) after snapshotting the pre-state for replay."""
+    """run a real contract entry point (`<contract>::contract::<entry>`) after snapshotting the pre-state for replay.
+    Several calls in one body make a multi-step history; each step is validated natively on its own."""
     from . import replay
-    it.scenario = dict(contract=contract, entry=entry, pre=replay.snapshot(it.world), env=env, info=info, msg=dup(msg), nice=list(nice))
+    sc = dict(contract=contract, entry=entry, pre=replay.snapshot(it.world), env=env, info=info, msg=dup(msg), nice=list(nice))
+    st = Step(sc)
+    if not hasattr(it, 'rsteps'): it.rsteps = []
+    it.rsteps.append(st)
+    it.scenario = sc
     name = '%s::contract::%s' % (contract, entry)
-    if entry == 'query': return run_entry(it, name, mk_deps(mut=False), env, msg)
-    if entry == 'reply': return run_entry(it, name, mk_deps(), env, msg)
-    return run_entry(it, name, mk_deps(), env, info, msg)
+    try:
+        if entry == 'query': r = run_entry(it, name, mk_deps(mut=False), env, msg)
+        elif entry == 'reply': r = run_entry(it, name, mk_deps(), env, msg)
+        else: r = run_entry(it, name, mk_deps(), env, info, msg)
+    except PanicPath as p:
+        st.kind = 'panic'; st.msg = p.msg; raise
+    st.kind = 'ret'; st.value = r; st.world = replay.snapshot(it.world)
+    return r
 
 
 def run_entry(it, name, *args):
